@@ -1,6 +1,8 @@
 package main
 
 import (
+	"encoding/json"
+	"os/exec"
 	"flag"
 	"fmt"
 	"os"
@@ -405,7 +407,87 @@ func runObligations(sv *Solver, obls []*Obligation) []Result {
 	return results
 }
 
-func cmdSelftest(args []string) int { fmt.Println("not yet"); return 2 }
+// cmdSelftest runs the must-fail / must-pass corpus: every entry is a source edit
+// applied through the loader overlay (nothing is written into /repo); a must-fail
+// entry has to produce a VIOLATION for its property, a must-pass entry must not.
+func cmdSelftest(args []string) int {
+	fs := flag.NewFlagSet("selftest", flag.ExitOnError)
+	verif := fs.String("verif", "/verif", "verif root")
+	only := fs.String("p", "", "only entries of this property")
+	fs.Parse(args)
+	data, err := os.ReadFile(*verif + "/selftest/mutants.json")
+	if err != nil {
+		fmt.Fprintln(os.Stderr, err)
+		return 2
+	}
+	type entry struct {
+		ID       string `json:"id"`
+		Property string `json:"property"`
+		File     string `json:"file"`
+		Find     string `json:"find"`
+		Replace  string `json:"replace"`
+		Expect   string `json:"expect"` // violation | quiet
+		Note     string `json:"note"`
+	}
+	var list []entry
+	if err := json.Unmarshal(data, &list); err != nil {
+		fmt.Fprintln(os.Stderr, "mutants.json:", err)
+		return 2
+	}
+	exe, _ := os.Executable()
+	type res struct {
+		e   entry
+		ok  bool
+		msg string
+	}
+	out := make([]res, len(list))
+	var wg sync.WaitGroup
+	sem := make(chan struct{}, 3)
+	for i, en := range list {
+		if *only != "" && en.Property != *only {
+			continue
+		}
+		i, en := i, en
+		wg.Add(1)
+		go func() {
+			defer wg.Done()
+			sem <- struct{}{}
+			defer func() { <-sem }()
+			cmd := exec.Command(exe, "check", en.Property, "-q", "-noevidence", "-mut", en.File+"::"+en.Find+"::"+en.Replace)
+			b, _ := cmd.CombinedOutput()
+			n := strings.Count(string(b), "VIOLATION property="+en.Property)
+			engineErr := strings.Contains(string(b), "engine error")
+			switch en.Expect {
+			case "violation":
+				out[i] = res{en, n > 0 && !engineErr, fmt.Sprintf("%d violation line(s)", n)}
+			default:
+				out[i] = res{en, n == 0 && !engineErr, fmt.Sprintf("%d violation line(s)", n)}
+			}
+			if engineErr {
+				out[i].msg += " ENGINE ERROR: " + truncate(string(b), 300)
+			}
+		}()
+	}
+	wg.Wait()
+	bad := 0
+	for _, r := range out {
+		if r.e.ID == "" {
+			continue
+		}
+		mark := "ok  "
+		if !r.ok {
+			mark = "FAIL"
+			bad++
+		}
+		fmt.Printf("%s %-28s %-4s expect=%-9s %s\n", mark, r.e.ID, r.e.Property, r.e.Expect, r.msg)
+	}
+	if bad > 0 {
+		fmt.Printf("selftest: %d entries did not behave as expected\n", bad)
+		return 2
+	}
+	fmt.Println("selftest: all entries behave as expected")
+	return 0
+}
 
 
 // batchSolve discharges, per FuncGen, the obligations that need no per-instance
